@@ -1095,6 +1095,11 @@ func (i *interpreter) errorsAsRec(fr *frame, err iface, dst *value, targetType t
 
 // toNativeArg converts an interpreter value to a Go value for formatting.
 func (i *interpreter) toNativeArg(fr *frame, v value) any {
+	i.fmtDepth++
+	defer func() { i.fmtDepth-- }()
+	if i.fmtDepth > 4 {
+		return "<...>"
+	}
 	if it, ok := v.(iface); ok {
 		if it.t == nil {
 			return nil
